@@ -517,6 +517,42 @@ func c02Build(dir string, tmpls []*c02Tmpl, root string) (string, error) {
 	return "", nil
 }
 
+// c02Statics: markup without any Go expression, and the document it denotes written out by hand (the attribute values
+// a browser reads in the source are the ones it must read in the output). The expectation travels inside the template
+// as a Go comment, which rendering omits.
+var c02Statics = [][]string{
+	{`<p title=R&amp;D >t</p>`, `<p title="R&amp;D">t</p>`},
+	{`<input value=&lt;none&gt; disabled/>`, `<input value="&lt;none&gt;" disabled>`},
+	{`<a data-owner=&copy;2024 href="/x?a=1&amp;b=2">l</a>`, `<a data-owner="©2024" href="/x?a=1&amp;b=2">l</a>`},
+	{`<p data-k='a&#39;b' lang="q&quot;r">q</p>`, `<p data-k="a&#39;b" lang="q&#34;r">q</p>`},
+	{`<p if true { title=a&amp;b } else { title=c&amp;d }>m</p>`, `<p title="a&amp;b">m</p>`},
+	{`<ul><li>1</li><li class="x y">2 &amp; 3</li></ul><br/><hr>`, `<ul><li>1</li><li class="x y">2 &amp; 3</li></ul><br><hr>`},
+	{`<div hidden data-flag>a <b>b</b> c</div>`, `<div hidden data-flag>a <b>b</b> c</div>`},
+	{`<a href=/path >x</a>`, `<a href="/path">x</a>`, "unquoted-leading-slash"},
+	{`<a href=a/b data-x=1 >y</a>`, `<a href="a/b" data-x="1">y</a>`, "unquoted-inner-slash"},
+}
+
+func c02Static(e *emitter, r *rng, scratch, root string) {
+	if e.shard != 0 {
+		return
+	}
+	var tmpls []*c02Tmpl
+	for i, st := range c02Statics {
+		name := fmt.Sprintf("T%d", i)
+		key := ""
+		if len(st) > 2 {
+			key = "\n\t// KEY:" + st[2]
+		}
+		src := "templ " + name + "() {\n\t// EXPECT:" + hx(st[1]) + key + "\n\t" + st[0] + "\n}\n"
+		if t, ok := c02Accept(name, src); ok {
+			tmpls = append(tmpls, t)
+		} else {
+			e.count("static-template-rejected")
+		}
+	}
+	c02RunBatchOp(e, r, scratch, root, "static", tmpls, 1, "static")
+}
+
 func runC02(e *emitter, tier string, seed uint64) {
 	r := &rng{s: seed*7919 + uint64(e.shard)}
 	e.selfSharded = true
@@ -532,6 +568,7 @@ func runC02(e *emitter, tier string, seed uint64) {
 	if tier == "thorough" {
 		batches, per, nargs = 3, 400, 6
 	}
+	c02Static(e, r, scratch, root)
 	for b := 0; b < batches; b++ {
 		var tmpls []*c02Tmpl
 		for len(tmpls) < per {
